@@ -257,16 +257,18 @@ def configs(tier):
                         if quick and (N == 4 or (aw == 1 and N > 1)):
                             continue
                         T.append(("arbiter", (N, af, iff, ag, ig, aw, 16)))
+    sub_opts = [(0, None), (1, None), (2, None), (1, "sparse")]
+    sub_lists = [(a,) for a in sub_opts] + list(itertools.product(sub_opts, repeat=2))
+    n = 0
     for daw in (0, 1, 2, 4):
         for ddw, dg in ((8, 8), (16, 8), (32, 8), (32, 16), (64, 64)):
             for df in feats:
-                for subs in itertools.product([(0, None), (1, None), (2, None), (1, "sparse")], repeat=2):
+                for subs in sub_lists:
                     for sf in (df, (), ("cti",), ("bte", "lock")):
-                        if quick and (len(T) % 3):
-                            T.append(None)
+                        n += 1
+                        if quick and len(subs) == 2 and n % 3:
                             continue
                         T.append(("wbdec", (daw, ddw, dg, df, subs, sf)))
-    T = [t for t in T if t is not None]
     for daw in (1, 2, 4):
         for dw in (1, 2, 8):
             for al in (0, 1, 2):
